@@ -44,13 +44,54 @@ def _cell():
     return [ST.sym(n) for n in ("a", "b", "c", "alpha", "beta", "gamma")]
 
 
-def _mk(name, modules_fn, run_fn, args, spec, prop="C04", extra_fn=None, requires_fn=None):
+def _mk(name, modules_fn, run_fn, args, spec, prop="C04", extra_fn=None, requires_fn=None, replay_fn=None):
     def gen(ctx):
         mods = modules_fn()
         extra = extra_fn(mods) if extra_fn else None
         req = requires_fn() if requires_fn else ()
-        return trace_obligations(name, lambda *a, **k: run_fn(mods, *a, **k), mods, args, spec, prop=prop, extra=extra, requires=req)
+        obs, info = trace_obligations(name, lambda *a, **k: run_fn(mods, *a, **k), mods, args, spec, prop=prop, extra=extra, requires=req)
+        if replay_fn is not None:
+            info = dict(info, replayer=lambda ur, ob, model, seed: replay_fn(mods, ob, model, seed))
+        return obs, info
     return GenUnit(name, gen, "trace")
+
+
+def _num_B(cell):
+    """numeric Busing-Levy B (independent of the code under test; used only to replay counterexamples)"""
+    a, b, c = cell[:3]
+    ca, cb, cg = [np.cos(np.radians(x)) for x in cell[3:]]
+    g = np.array([[a * a, a * b * cg, a * c * cb], [a * b * cg, b * b, b * c * ca], [a * c * cb, b * c * ca, c * c]])
+    gi = np.linalg.inv(g)
+    As, Bs, Cs = np.sqrt(np.diag(gi))
+    betas, gammas = np.arccos(gi[0, 2] / As / Cs), np.arccos(gi[0, 1] / As / Bs)
+    return np.array([[As, Bs * np.cos(gammas), Cs * np.cos(betas)], [0, Bs * np.sin(gammas), -Cs * np.sin(betas) * ca], [0, 0, 1 / c]])
+
+
+def _replay_strain(call, kind):
+    """replayer for the strain wiring units: the real function on seeded random (ubi, reference cell) against the Biot strain of
+    F = ubi^T . B0^T computed independently with numpy (V - I in the sample frame, S - I in the crystal frame)"""
+    def rp(mods, ob, model, seed):
+        rng = np.random.RandomState(seed)
+        for t in range(40):
+            cell = [rng.uniform(3, 8), rng.uniform(3, 8), rng.uniform(3, 8), rng.uniform(70, 110), rng.uniform(70, 110), rng.uniform(70, 110)]
+            q, _ = np.linalg.qr(rng.randn(3, 3))
+            if np.linalg.det(q) < 0:
+                q[0] *= -1
+            stretch = np.eye(3) + 0.02 * rng.randn(3, 3)
+            ubi = np.linalg.inv(q.dot(stretch).dot(_num_B(cell)))
+            F = ubi.T.dot(_num_B(cell).T)
+            w, sv, vh = np.linalg.svd(F)
+            X = w.dot(np.diag(sv)).dot(w.T) if kind == "V" else vh.T.dot(np.diag(sv)).dot(vh)
+            want = X - np.eye(3)
+            try:
+                got = np.asarray(call(mods, ubi, np.array(cell)), float)
+            except Exception as e:
+                return dict(confirmed=False, why="real function raised %s: %s" % (type(e).__name__, e))
+            if not np.allclose(got, want, atol=1e-7):
+                return dict(confirmed=True, source="seeded-random#%d" % t, inputs=dict(ubi=ubi.tolist(), cell=cell),
+                            observed=got.tolist(), expected=want.tolist())
+        return dict(confirmed=False, why="the real function agrees with the independent numpy reference on 40 seeded random (ubi, cell)")
+    return rp
 
 
 def _gu(mod, name):
@@ -146,7 +187,12 @@ def units_c10_copies():
             else:
                 X = np.dot(vh.T, np.dot(NP.diag(s), vh))
             return [F, X - ST.lift(np.eye(3).astype(int))]
-        U.append(_mk("py:tensor_map." + fname, tm, run, lambda: ((ST.symarray("ubi", (3, 3)), _cell()), {}), spec, prop="C10"))
+        def native(m, ubi, cell, fname=fname):
+            res = np.zeros((3, 3))
+            _gu(m[0], fname)(ubi, cell, res)
+            return res
+        U.append(_mk("py:tensor_map." + fname, tm, run, lambda: ((ST.symarray("ubi", (3, 3)), _cell()), {}), spec, prop="C10",
+                     replay_fn=_replay_strain(native, kind)))
     return U
 
 
@@ -247,6 +293,7 @@ def units_c10_grain():
             X = np.dot(w, np.dot(NP.diag(s), w.T)) if kind == "V" else np.dot(vh.T, np.dot(NP.diag(s), vh))
             return [F, (X - ST.lift(np.eye(3).astype(int))) / 1]
         U.append(_mk("py:grain.grain." + meth, gr, run, lambda: ((ST.symarray("ubi", (3, 3)), _cell()), {}), spec, prop="C10",
+                     replay_fn=_replay_strain(lambda m, ubi, cell, meth=meth: getattr(m[0].grain(ubi), meth)(cell, m=0.5), kind),
                      extra_fn=lambda m: {"inv": NP.linalg.inv},
                      requires_fn=lambda: [_T(NP.linalg.det(ST.symarray("ubi", (3, 3)))) >= 0]))
     def run_e6(m, e):
